@@ -6,6 +6,7 @@ harness/h_pyagg.py).  `m_c19 model` answers with the model of the code, `m_c19 s
 container in the current slot; every slot is an independent state (the model has no state shared between containers). -/
 open StepModel.PyAgg
 open StepModel.Spec
+open StepModel.Generated
 
 def showLogical : Logical → String
   | .t => "logical T" | .f => "logical F" | .u => "logical U"
@@ -61,6 +62,14 @@ def parseDecl : List String → Option Decl
     pure { kind := k, lo, hi, base, unique := u, optional := o }
   | _ => none
 
+def parseBFn : String → Option BFn
+  | "SIZEOF" => some .sizeof | "HIINDEX" => some .hiindex | "LOINDEX" => some .loindex
+  | "HIBOUND" => some .hibound | "LOBOUND" => some .lobound | "VALUE_UNIQUE" => some .valueUnique | _ => none
+
+def parseSpecFn : String → Option Aggregate.BuiltinFn
+  | "SIZEOF" => some .sizeof | "HIINDEX" => some .hiindex | "LOINDEX" => some .loindex
+  | "HIBOUND" => some .hibound | "LOBOUND" => some .lobound | "VALUE_UNIQUE" => some .valueUnique | _ => none
+
 inductive St
   | none
   | model (a : Agg)
@@ -92,6 +101,25 @@ def handle (useSpec : Bool) (p : Proc) (line : String) : Proc × String :=
         match Agg.new d with
         | .ok a => (p.put (.model a), "ok")
         | .error _ => (p.put .none, "refused")
+  | ["fits", k, lo, hi, k', lo', hi'] =>      -- may a `K [lo:hi] OF REAL` element stand where `K' [lo':hi'] OF REAL` is declared?
+    match parseKind k, lo.toInt?, parseHi hi, parseKind k', lo'.toInt?, parseHi hi' with
+    | some k, some lo, some hi, some k', some lo', some hi' =>
+      let x : Aggregate.BTy := .agg k lo hi (.simple 2)
+      let e : Aggregate.BTy := .agg k' lo' hi' (.simple 2)
+      if useSpec then (p, if Aggregate.specializes x e then "ok" else "refused")
+      else (p, if checkType ⟨Aggregate.eraseBounds x, 1⟩ (Aggregate.eraseBounds e) then "ok" else "refused")
+    | _, _, _, _, _, _ => (p, "bad-op")
+  | ["bi", f] =>                       -- a built-in function of Builtin.py applied to the current container
+    match parseBFn f, parseSpecFn f, p.get with
+    | some _, some _, .none => (p, "no-aggregate")
+    | some bf, _, .model a => (p, showAns (Builtin.call bf (.container a)).obs)
+    | _, some sf, .spec d v => (p, showAns (Aggregate.builtin d v sf))
+    | _, _, _ => (p, "bad-op")
+  | ["biv", f, t, v] =>                -- … applied to a value that is not an aggregate
+    match parseBFn f, parseTy t, v.toNat? with
+    | some bf, some (.simple t), some v =>
+      (p, if useSpec then "refused" else showAns (Builtin.call bf (.other ⟨.simple t, v⟩)).obs)
+    | _, _, _ => (p, "bad-op")
   | ws =>
     match parseOp ws with
     | Option.none => (p, "bad-op")
